@@ -218,15 +218,28 @@ static sqf::runtime::runtime::result execute_do(sqf::runtime::runtime& runtime, 
             std::vector<sqf::runtime::frame> stacktrace_frames(context_active.frames_rbegin(), context_active.frames_rend());
             sqf::runtime::diagnostics::stacktrace stacktrace(stacktrace_frames);
 
-            // Try to find a frame that has recover behavior for runtime error
-            auto res = std::find_if(context_active.frames_rbegin(), context_active.frames_rend(),
-                [](sqf::runtime::frame& frame) -> bool { return frame.can_recover_runtime_error(); });
-
-            if (res != context_active.frames_rend())
-            { // We found a recoverable frame
-                stacktrace.value = std::make_shared<sqf::types::d_array>(log_messages.begin(), log_messages.end());
-                // Push Stacktrace to value-stack
-                context_active.push_value({ std::make_shared<sqf::types::d_stacktrace>(stacktrace) });
+            // Try to find a frame that has recover behavior for runtime error and accepts this error.
+            // A frame whose behavior refuses (try-catch only handles throw, an except__ handler that is
+            // already running) is unwound like any other frame and the search continues further out.
+            bool recovered = false;
+            bool stacktrace_pushed = false;
+            // the faulting instruction lives in a frame that may get unwound below
+            auto error_diag_info = (*instruction)->diag_info();
+            while (!recovered)
+            {
+                auto res = std::find_if(context_active.frames_rbegin(), context_active.frames_rend(),
+                    [](sqf::runtime::frame& frame) -> bool { return frame.can_recover_runtime_error(); });
+                if (res == context_active.frames_rend())
+                {
+                    break;
+                }
+                if (!stacktrace_pushed)
+                {
+                    stacktrace.value = std::make_shared<sqf::types::d_array>(log_messages.begin(), log_messages.end());
+                    // Push Stacktrace to value-stack
+                    context_active.push_value({ std::make_shared<sqf::types::d_stacktrace>(stacktrace) });
+                    stacktrace_pushed = true;
+                }
 
                 // Pop all frames between result and current_frame
                 size_t frames_to_pop = res - context_active.frames_rbegin();
@@ -236,7 +249,17 @@ static sqf::runtime::runtime::result execute_do(sqf::runtime::runtime& runtime, 
                 }
 
                 // Recover from exception
-                context_active.current_frame().recover_runtime_error(runtime);
+                if (context_active.current_frame().recover_runtime_error(runtime) != sqf::runtime::frame::result::error)
+                {
+                    recovered = true;
+                }
+                else
+                {
+                    context_active.pop_frame();
+                }
+            }
+            if (recovered)
+            {
                 runtime_error = false;
             }
             else
@@ -247,7 +270,7 @@ static sqf::runtime::runtime::result execute_do(sqf::runtime::runtime& runtime, 
                     "        " <<
                     "    " << "\x1B[36mEXIT execute_do\033[0m as runtime error occured" << std::endl;
 #endif // DF__SQF_RUNTIME__ASSEMBLY_DEBUG_ON_EXECUTE
-                runtime.__logmsg(logmessage::runtime::Stacktrace((*instruction)->diag_info(), stacktrace));
+                runtime.__logmsg(logmessage::runtime::Stacktrace(error_diag_info, stacktrace));
                 runtime_error = false;
                 return sqf::runtime::runtime::result::runtime_error;
             }
